@@ -76,7 +76,35 @@ struct NumStr {
 static const NumStr kNumStrs[] = {{"123", 1, 123}, {"-5", 2, -5}, {"1.5", 3, 1.5}, {"1e3", 3, 1000}, {"abc", 0, 0}, {"12x", 0, 0}, {" 1", 0, 0}, {"", 0, 0},
                                   {"0", 1, 0}, {"true", 0, 0}, {"false", 0, 0}, {"-0.25", 3, -0.25}, {"18446744073709551615", 1, 18446744073709551615.0}};
 
+// getters asked for a kind the value does not have answer "nothing" (null / 0 / empty view), and for the kind it has, the content
+static void check_kind_getters(const V &v, const M &mraw) {
+    const M   &m     = mraw.eff();
+    const bool isobj = m.k == K::Obj, isarr = m.k == K::Arr, isstr = m.k == K::Str;
+    V         &mv    = const_cast<V &>(v); // the non-const overloads only hand out pointers; nothing is written through them
+    const bool ptr   = mraw.k == K::Ptr; // (Value::IsPointerToValue() does not compile when instantiated: isPtrValue() is declared void)
+    if ((v.GetObject() != nullptr) != isobj) vf::fail(fkey("getter:GetObject").c_str(), "kind=%s", kname(m.k));
+    if ((v.GetArray() != nullptr) != isarr) vf::fail(fkey("getter:GetArray").c_str(), "kind=%s", kname(m.k));
+    if ((v.GetString() != nullptr) != isstr) vf::fail(fkey("getter:GetString").c_str(), "kind=%s", kname(m.k));
+    if (!ptr) { // (the non-const overloads do not look through a pointer-to-value: that is their documented difference)
+        if ((mv.GetObject() != nullptr) != isobj) vf::fail(fkey("getter:GetObject-mutable").c_str(), "kind=%s", kname(m.k));
+        if ((mv.GetArray() != nullptr) != isarr) vf::fail(fkey("getter:GetArray-mutable").c_str(), "kind=%s", kname(m.k));
+        if ((mv.GetString() != nullptr) != isstr) vf::fail(fkey("getter:GetString-mutable").c_str(), "kind=%s", kname(m.k));
+    }
+    if (!isstr) {
+        if (v.Length() != 0 || v.StringStorage() != nullptr || v.GetStringView().Length() != 0) vf::fail(fkey("getter:string-accessors-on-non-string").c_str(), "kind=%s", kname(m.k));
+    } else {
+        auto sv = v.GetStringView();
+        if (v.Length() != m.s.size() || sv.Length() != m.s.size() || (m.s.size() && memcmp(sv.First(), m.s.data(), m.s.size() * sizeof(C)) != 0) ||
+            (m.s.size() && memcmp(v.StringStorage(), m.s.data(), m.s.size() * sizeof(C)) != 0))
+            vf::fail(fkey("getter:string-accessors").c_str(), "length=%u expected=%zu", unsigned(v.Length()), m.s.size());
+    }
+    if (!isobj && v.GetKey(0) != nullptr) vf::fail(fkey("getter:GetKey-on-non-object").c_str(), "kind=%s", kname(m.k));
+    if (!isobj && !isarr && (v.GetValue(0) != nullptr || v.Size() != 0)) vf::fail(fkey("getter:GetValue-on-scalar").c_str(), "kind=%s", kname(m.k));
+    vf::count("kind_getter_checks");
+}
+
 static void check_coercions(const V &v, const M &mraw) {
+    check_kind_getters(v, mraw);
     const M  &m = mraw.eff();
     QNumber64 n;
     n.Natural       = 0;
@@ -89,16 +117,26 @@ static void check_coercions(const V &v, const M &mraw) {
             if (t != QNumberType::Natural || n.Natural != m.u) vf::fail(fkey("coercion:uint-SetNumber").c_str(), "v=%" PRIu64, m.u);
             if (!hb || b != (m.u > 0)) vf::fail(fkey("coercion:uint-SetBool").c_str(), "v=%" PRIu64, m.u);
             if (v.GetInt64() != int64_t(m.u)) vf::fail(fkey("coercion:uint-GetInt64").c_str(), "v=%" PRIu64, m.u);
+            if (v.GetUInt64() != m.u) vf::fail(fkey("coercion:uint-GetUInt64").c_str(), "v=%" PRIu64, m.u);
+            if (v.GetDouble() != double(m.u) || v.GetNumber() != double(m.u)) vf::fail(fkey("coercion:uint-GetDouble").c_str(), "v=%" PRIu64 " got=%.17g", m.u, v.GetDouble());
             break;
         case K::I64:
             if (t != QNumberType::Integer || n.Integer != m.i) vf::fail(fkey("coercion:int-SetNumber").c_str(), "v=%" PRId64, m.i);
             if (!hb || b != (m.i > 0)) vf::fail(fkey("coercion:int-SetBool").c_str(), "v=%" PRId64, m.i);
             if (v.GetUInt64() != uint64_t(m.i)) vf::fail(fkey("coercion:int-GetUInt64").c_str(), "v=%" PRId64, m.i);
+            if (v.GetInt64() != m.i) vf::fail(fkey("coercion:int-GetInt64").c_str(), "v=%" PRId64, m.i);
+            if (v.GetDouble() != double(m.i) || v.GetNumber() != double(m.i)) vf::fail(fkey("coercion:int-GetDouble").c_str(), "v=%" PRId64 " got=%.17g", m.i, v.GetDouble());
             break;
         case K::Dbl:
             if (t != QNumberType::Real || memcmp(&n.Real, &m.d, 8) != 0) vf::fail(fkey("coercion:double-SetNumber").c_str(), "v=%.17g", m.d);
             if (!hb || b != (m.d > 0)) vf::fail(fkey("coercion:double-SetBool").c_str(), "v=%.17g", m.d);
             if (std::fabs(m.d) < 9e18 && v.GetInt64() != int64_t(m.d)) vf::fail(fkey("coercion:double-GetInt64").c_str(), "v=%.17g", m.d);
+            // (a double read as unsigned: the integral part for 0 <= d < 2^63; other ranges are not pinned down)
+            if (m.d >= 0 && m.d < 9e18 && v.GetUInt64() != uint64_t(m.d)) vf::fail(fkey("coercion:double-GetUInt64").c_str(), "v=%.17g got=%" PRIu64, m.d, uint64_t(v.GetUInt64()));
+            {
+                double g1 = v.GetDouble(), g2 = v.GetNumber();
+                if (memcmp(&g1, &m.d, 8) != 0 || memcmp(&g2, &m.d, 8) != 0) vf::fail(fkey("coercion:double-GetDouble").c_str(), "v=%.17g got=%.17g", m.d, g1);
+            }
             break;
         case K::True:
             if (t != QNumberType::Natural || n.Natural != 1 || !hb || !b || v.GetDouble() != 1.0 || v.GetUInt64() != 1) vf::fail(fkey("coercion:true").c_str(), "t=%d", int(t));
@@ -120,6 +158,8 @@ static void check_coercions(const V &v, const M &mraw) {
                 static const QNumberType map[] = {QNumberType::NotANumber, QNumberType::Natural, QNumberType::Integer, QNumberType::Real};
                 if (t != map[ns.kind]) vf::fail(fkey("coercion:string-SetNumber-kind").c_str(), "text=%s kind=%d expected=%d", ns.text, int(t), ns.kind);
                 else if (ns.kind != 0 && v.GetDouble() != ns.val) vf::fail(fkey("coercion:string-GetDouble").c_str(), "text=%s got=%.17g", ns.text, v.GetDouble());
+                else if (ns.kind != 0 && std::fabs(ns.val) < 9e15 && v.GetInt64() != int64_t(ns.val)) vf::fail(fkey("coercion:string-GetInt64").c_str(), "text=%s got=%" PRId64, ns.text, int64_t(v.GetInt64()));
+                else if (ns.kind != 0 && ns.val >= 0 && ns.val < 9e15 && v.GetUInt64() != uint64_t(ns.val)) vf::fail(fkey("coercion:string-GetUInt64").c_str(), "text=%s got=%" PRIu64, ns.text, uint64_t(v.GetUInt64()));
                 else if (ns.kind == 0 && (v.GetDouble() != 0.0 || v.GetUInt64() != 0)) vf::fail(fkey("coercion:string-nonnumeric-not-zero").c_str(), "text=%s", ns.text);
                 bool eb = (a == "true"), ehb = (a == "true" || a == "false");
                 if (hb != ehb || (ehb && b != eb)) vf::fail(fkey("coercion:string-SetBool").c_str(), "text=%s", ns.text);
